@@ -43,7 +43,7 @@ EXTRA_DEPS = {"tower-resilience-fallback": ["tokio"]}
 INJECT = {
     "tower-resilience-circuitbreaker": [("circuit.rs", "in_circuit.rs", "kani")],
     "tower-resilience-ratelimiter": [("limiter.rs", "in_limiter.rs", "kani")],
-    "tower-resilience-healthcheck": [("wrapper.rs", "in_wrapper.rs", "kani")],
+    "tower-resilience-healthcheck": [("wrapper.rs", "in_wrapper.rs", "kani"), ("context.rs", "in_context.rs", "kani")],
     "tower-resilience-chaos": [("layer.rs", "in_layer.rs", "kani")],
     "tower-resilience-core": [("aimd.rs", "in_aimd.rs", "kani"), ("aimd.rs", "in_aimd_rg.rs", 'all(kani, feature = "verif-hooks")')],
     "tower-resilience-adaptive": [("algorithm.rs", "in_algorithm.rs", "kani"), ("service.rs", "in_service.rs", "kani")],
@@ -115,7 +115,10 @@ def _cbfam(fn, what, quick, **kw):
     for wt, ns in (("count", range(4)), ("time", range(3))):
         for n in ns:
             tiers = ("quick", "thorough") if (wt, n) in quick else ("thorough",)
-            out.append(_cb(f"{fn}_{wt}_n{n}", f"{what} [{wt}-based window, {n} calls already in the window]", CB_BOUND, tiers=tiers, **kw))
+            kw2 = dict(kw)
+            if fn == "c04_step" and (wt, n) == ("time", 2):
+                kw2.update(mem_gb=30, timeout=1800)  # ran out of 12 GB when validated
+            out.append(_cb(f"{fn}_{wt}_n{n}", f"{what} [{wt}-based window, {n} calls already in the window]", CB_BOUND, tiers=tiers, **kw2))
     return out
 Q_ALL = {("count", 0), ("count", 1), ("count", 2), ("count", 3), ("time", 0), ("time", 1)}
 PROPS["C03"] = Prop(jobs=6,
@@ -326,6 +329,8 @@ PROPS["C18"] = Prop(
         _hc("thresholds_two_ticks", "periodic check task: published status flips exactly at the thresholds; get_healthy/get_usable follow it",
             "1 resource, 2 interval ticks, per-tick result symbolic (healthy/degraded/unhealthy/unknown/slower than timeout), thresholds 1..=3", profile="service", mem_gb=30, timeout=5400, tiers=()),
         _hc("thresholds_three_ticks", "same, 3 ticks", "3 ticks", profile="service", mem_gb=30, timeout=5400, tiers=()),
+        H("context::verif_kani_in_context::context_counters_step", HC, "counter part of the threshold clause, one step from an arbitrary counter state: record_success / record_failure extend one run by exactly one and end the other; counting publishes nothing; publishing keeps the runs",
+          "any counters < 2^64-1, any status", models=("tokio",), playback=False, timeout=600),
         _hc("custom_selector_sees_statuses", "custom selector receives the published statuses; its answer is returned", "3 resources", timeout=900),
     ],
     functions=["tower_resilience_healthcheck::selector::SelectionStrategy::select", "HealthCheckedContext::{new,status,set_status}"],
